@@ -36,6 +36,8 @@ pub struct Gen {
     pub size_profile: u8,
     pub allow_seek: bool,
     pub nfs: usize,
+    /// stack contains an overlay: avoid the preconditions of overlay known findings mostly
+    pub avoid_known: bool,
 }
 
 #[derive(Clone, Copy, Debug, PartialEq)]
@@ -69,7 +71,7 @@ impl Gen {
             names[1] = "ab".into();
         }
         let depth = rng.range(2, 4);
-        Gen { rng, names, depth, next_payload: 1, domain: Domain::Contract, size_profile: 0, allow_seek: true, nfs: 1 }
+        Gen { rng, names, depth, next_payload: 1, domain: Domain::Contract, size_profile: 0, allow_seek: true, nfs: 1, avoid_known: false }
     }
 
     pub fn payload(&mut self) -> Payload {
